@@ -1,0 +1,63 @@
+/*
+ * Verification hooks, compiled in only when UPIPE_VERIF is defined (used by
+ * an out-of-tree property-based testing harness). Without the define every
+ * macro below expands to nothing.
+ */
+
+#ifndef _UPIPE_UVERIF_H_
+/** @hidden */
+#define _UPIPE_UVERIF_H_
+#ifdef __cplusplus
+extern "C" {
+#endif
+
+#ifdef UPIPE_VERIF
+
+/** kinds of scheduling points */
+enum uverif_kind {
+    UVERIF_ATOMIC_LOAD = 1,
+    UVERIF_ATOMIC_STORE,
+    UVERIF_ATOMIC_CMPXCHG,
+    UVERIF_ATOMIC_FETCH_ADD,
+    UVERIF_ATOMIC_FETCH_SUB,
+    UVERIF_RING_READ,
+    UVERIF_RING_WRITE,
+    UVERIF_EVENTFD_READ,
+    UVERIF_EVENTFD_WRITE,
+    UVERIF_EVENTFD_INIT,
+    UVERIF_EVENTFD_CLEAN
+};
+
+/** pool notifications */
+enum uverif_pool_op {
+    /** upool_free() was entered for obj */
+    UVERIF_POOL_FREE = 1,
+    /** obj was stored into a ulifo */
+    UVERIF_LIFO_PUSHED,
+    /** obj was taken out of a ulifo */
+    UVERIF_LIFO_POPPED
+};
+
+/** called before every atomic operation, every plain access to a ring element
+ * and every event descriptor read/write (provided by the harness) */
+void upipe_verif_yield(int kind, const volatile void *addr);
+/** called on pool traffic (provided by the harness) */
+void upipe_verif_pool(int op, void *pool, void *obj);
+/** called on event descriptor operations; a negative return value means
+ * "not virtualised, use the real descriptor" (provided by the harness) */
+int upipe_verif_eventfd(int op, void *ueventfd, int arg);
+
+#define UVERIF_YIELD(kind, addr) upipe_verif_yield(kind, addr)
+#define UVERIF_POOL(op, pool, obj) upipe_verif_pool(op, pool, obj)
+
+#else
+
+#define UVERIF_YIELD(kind, addr) ((void)0)
+#define UVERIF_POOL(op, pool, obj) ((void)0)
+
+#endif
+
+#ifdef __cplusplus
+}
+#endif
+#endif
